@@ -168,11 +168,14 @@ def run(tape: Tape, params: dict) -> Outcome:
         kind = ["accept", "close", "http", "crash"][tape.weighted([6, 2, 2, 1], "app.decision")]
         decision = {"kind": kind}
         if kind == "accept":
-            sp = tape.weighted([4, 3, 1], "app.subprotocol")
+            sp = tape.weighted([4, 3, 1, 1], "app.subprotocol")
             if sp == 1 and offered:
                 decision["subprotocol"] = tape.choice(offered, "app.whichsub").decode()
             elif sp == 2:
                 decision["subprotocol"] = "unoffered"
+            elif sp == 3 and offered:
+                # subprotocol names are case-sensitive tokens: "Chat" was not offered by a client offering "chat"
+                decision["subprotocol"] = tape.choice(offered, "app.whichsub").decode().capitalize()
             hk = tape.weighted([4, 3, 1, 1], "app.headers")
             if hk == 1:
                 decision["headers"] = [(b"x-extra", b"1"), (b"x-more", b"two")]
@@ -199,10 +202,9 @@ def run(tape: Tape, params: dict) -> Outcome:
     def setup(conn: Any) -> None:
         conn.seg_mode = seg
 
-    accept_expected = valid is True and decision["kind"] == "accept" and decision.get("subprotocol") != "unoffered" \
+    unoffered = decision.get("subprotocol") is not None and decision["subprotocol"].encode() not in offered
+    accept_expected = valid is True and decision["kind"] == "accept" and not unoffered \
         and not (decision.get("headers") and decision["headers"][0][0] in (b"sec-websocket-protocol", b":status"))
-    if decision.get("subprotocol") is not None and decision.get("subprotocol") != "unoffered" and not offered:
-        accept_expected = False
     ops: List[tuple] = []
     if accept_expected:
         nfirst = len(decision.get("first", []))
